@@ -656,9 +656,25 @@ static int rm_cb(const char *p, const struct stat *sb, int flag, struct FTW *f)
   (void)sb; (void)flag; (void)f;
   return remove(p);
 }
+/* removal relative to directory descriptors: the trees of some scenarios are deeper than PATH_MAX */
+static void rm_at(int dfd, const char *name)
+{
+  int fd = openat(dfd, name, O_RDONLY | O_DIRECTORY | O_NOFOLLOW);
+  if (fd < 0) { unlinkat(dfd, name, 0); return; }
+  DIR *d = fdopendir(fd);
+  if (!d) { close(fd); return; }
+  struct dirent *e;
+  while ((e = readdir(d)) != NULL) {
+    if (!strcmp(e->d_name, ".") || !strcmp(e->d_name, "..")) continue;
+    rm_at(fd, e->d_name);
+  }
+  closedir(d);
+  unlinkat(dfd, name, AT_REMOVEDIR);
+}
 static void rm_rf(const char *dir)
 {
-  nftw(dir, rm_cb, 32, FTW_DEPTH | FTW_PHYS);
+  rm_at(AT_FDCWD, dir);
+  (void)rm_cb;
 }
 
 static char *read_scenario(char *id, size_t idsz)
